@@ -179,12 +179,12 @@ Proof. vm_compute. repeat split; reflexivity. Qed.
 (* ---- beyond the property text: input that is NOT UTF-8 (Model/CliRaw.v) ----------------------------
    BufRead::lines() hands out an error for a line that is not UTF-8; the program stops reading that
    source (status 1 for the pattern file and standard input; for a FILE argument the rest of the file
-   is skipped).  (1) On inputs all of whose lines are UTF-8 -- the inputs the property speaks of --
+   is skipped); a FILE name that is not UTF-8 is not printed.  (1) On inputs all of whose lines (and FILE names) are UTF-8 -- the inputs the property speaks of --
    that program IS [cli_main], so every theorem above is a theorem about it. *)
 Theorem daacfind_on_bytes_is_daacfind_on_utf8_lines :
   forall fl pfile pstr stdin files,
   (forall f, pfile = Some f -> all_lines_utf8 f = true) ->
-  all_lines_utf8 stdin = true -> forallb (fun f => all_lines_utf8 (snd f)) files = true ->
+  all_lines_utf8 stdin = true -> forallb (fun f => valid_utf8 (fst f) && all_lines_utf8 (snd f)) files = true ->
   cli_main_raw fl pfile pstr stdin files = cli_main fl pfile pstr stdin files.
 Proof. exact cli_main_raw_on_utf8_lines. Qed.
 Print Assumptions daacfind_on_bytes_is_daacfind_on_utf8_lines.
